@@ -8,5 +8,5 @@ import (
 	"specterverif/simfs/shimos"
 )
 
-func ReadFile(p string) ([]byte, error)          { return simfs.Cur.ReadFile(p) }
-func ReadDir(dir string) ([]fs.FileInfo, error)  { return shimos.ReadDirInfo(dir) }
+func ReadFile(p string) ([]byte, error)         { return simfs.Cur.ReadFile(p) }
+func ReadDir(dir string) ([]fs.FileInfo, error) { return shimos.ReadDirInfo(dir) }
